@@ -119,6 +119,17 @@ func collectWrites(prog *Program, info *types.Info, n ast.Node, vars map[*types.
 					return true
 				}
 			}
+			// a closure bound to a local variable: its writes happen at the call
+			if id, ok := ast.Unparen(x.Fun).(*ast.Ident); ok && closureLits != nil {
+				if v, ok := info.Uses[id].(*types.Var); ok {
+					if lit := closureLits[v]; lit != nil && !closureBusy[lit] {
+						closureBusy[lit] = true
+						collectWrites(prog, info, lit.Body, vars, keys, reg)
+						delete(closureBusy, lit)
+						return true
+					}
+				}
+			}
 			callee := calleeOf(info, x)
 			if callee != nil && callee.Pkg() != nil && strings.HasPrefix(callee.Pkg().Path(), modPath) {
 				// &lv arguments: written only if the callee writes locations of that type
@@ -229,6 +240,33 @@ func calleeOf(info *types.Info, call *ast.CallExpr) *types.Func {
 
 var modsetReg = NewRegistry()
 
+// closures bound to locals of the function currently analysed (set per function)
+var closureLits map[*types.Var]*ast.FuncLit
+var closureBusy = map[*ast.FuncLit]bool{}
+
+func collectClosureLits(info *types.Info, body ast.Node) map[*types.Var]*ast.FuncLit {
+	out := map[*types.Var]*ast.FuncLit{}
+	ast.Inspect(body, func(n ast.Node) bool {
+		as, ok := n.(*ast.AssignStmt)
+		if !ok {
+			return true
+		}
+		for i, r := range as.Rhs {
+			lit, ok := ast.Unparen(r).(*ast.FuncLit)
+			if !ok || i >= len(as.Lhs) {
+				continue
+			}
+			if id, ok := as.Lhs[i].(*ast.Ident); ok {
+				if v, ok := info.ObjectOf(id).(*types.Var); ok {
+					out[v] = lit
+				}
+			}
+		}
+		return true
+	})
+	return out
+}
+
 func (p *Program) computeModSets() {
 	p.ModSets = map[*types.Func]map[string]bool{}
 	p.AddrTaken = map[*types.Func]bool{}
@@ -250,6 +288,7 @@ func (p *Program) computeModSets() {
 		shallow := &Program{ModSets: map[*types.Func]map[string]bool{}, Pkgs: p.Pkgs}
 		shallow.fvSet = map[string]bool{}
 		caller := fi.Obj
+		closureLits = collectClosureLits(info, fi.Decl.Body)
 		shallow.condEdge = func(callee *types.Func, dk, lk map[string]bool) {
 			condEdges = append(condEdges, condEdgeT{caller, callee, dk, lk})
 		}
